@@ -1108,6 +1108,13 @@ def check_primitive_returns(run, rule):
                             arg_ = show(u_["args"][0])
                             paired = any(isinstance(unwrap(t_), dict) and unwrap(t_).get("k") == "Bin" and unwrap(t_).get("op") == "+=" and
                                          path(unwrap(t_).get("lhs")) == p and show(unwrap(t_).get("rhs")) == arg_ for t_ in sts_)
+                            # the first advance: `acc = write_int(head); update_buffer(acc);`
+                            if not paired and path(u_["args"][0]) == p and i_ > 0:
+                                pv_ = unwrap(sts_[i_ - 1])
+                                if isinstance(pv_, dict) and (
+                                        (pv_.get("k") == "Bin" and pv_.get("op") == "=" and path(pv_.get("lhs")) == p) or
+                                        (pv_.get("k") == "Decl" and any(("l:%s#%s" % (v_.get("n"), v_.get("id")),) == p and v_.get("init") is not None for v_ in pv_.get("vars", [])))):
+                                    paired = True
                             if not paired:
                                 missing.append(u_.get("l"))
                 nested = [u for u in ubs if not any(unwrap(s_) is u for b_ in ir.walk(f["body"]) if b_.get("k") == "Block" for s_ in b_.get("s", []))]
